@@ -4,6 +4,12 @@ import json, os, sys
 here = os.path.dirname(os.path.abspath(__file__))
 root = os.path.dirname(here)
 tbl = json.load(open(os.path.join(here, "manifest_table.json")))
+import subprocess
+try:
+    log = subprocess.run(["git", "-C", "/repo", "log", "--format=%H %s"], capture_output=True, text=True).stdout.splitlines()
+    tbl["source_commits"] = [l.split(" ", 1)[0] for l in log if " verif hook" in l]
+except Exception:
+    pass
 checks = []
 for c in tbl["checks"]:
     pid = c["id"]
